@@ -199,15 +199,44 @@ func (d *decoder) lengthOutOfBounds(n int) bool {
 	return false
 }
 
+// readChunk is the number of bytes allocated for a string or byte sequence
+// before any of them has been received.
+const readChunk = 64 * 1024
+
 func (d *decoder) read(n int) []byte {
 	if d.lengthOutOfBounds(n) {
 		return nil
 	}
-	b := make([]byte, n)
-	n, err := io.ReadFull(d, b)
-	b = b[:n]
-	d.setError(err)
-	return b
+	if n <= readChunk {
+		b := make([]byte, n)
+		n, err := io.ReadFull(d, b)
+		b = b[:n]
+		d.setError(err)
+		return b
+	}
+	// The length comes from the wire and is only known not to exceed the
+	// bytes that the frame size prefix announces, which may be far more than
+	// what the peer actually sends: the buffer grows as the bytes arrive.
+	b := make([]byte, readChunk)
+	r := 0
+	for {
+		k, err := io.ReadFull(d, b[r:])
+		r += k
+		if err != nil || r == n {
+			if err == io.EOF {
+				err = io.ErrUnexpectedEOF // part of the value was received
+			}
+			d.setError(err)
+			return b[:r]
+		}
+		m := 2 * len(b)
+		if m > n {
+			m = n
+		}
+		g := make([]byte, m)
+		copy(g, b)
+		b = g
+	}
 }
 
 func (d *decoder) writeTo(w io.Writer, n int) {
